@@ -353,8 +353,20 @@ type workerResult struct {
 	tail  string
 }
 
+// RunOther runs check `id` of another harness binary (e.g. the -race build) as one worker
+// and returns its report, or an error plus the tail of its output.
+func RunOther(bin, id string, ctx *Ctx, extraEnv []string, timeout time.Duration) (*Report, string, error) {
+	ck := Checks[id]
+	wr := spawnBin(bin, ck, ctx, 300+ctx.Shard, 1, extraEnv, timeout)
+	return wr.rep, wr.tail, wr.err
+}
+
 func spawn(ck *Check, ctx *Ctx, shard, n int, extraEnv []string, timeout time.Duration) workerResult {
 	self, _ := os.Executable()
+	return spawnBin(self, ck, ctx, shard, n, extraEnv, timeout)
+}
+
+func spawnBin(self string, ck *Check, ctx *Ctx, shard, n int, extraEnv []string, timeout time.Duration) workerResult {
 	cmd := exec.Command(self, ck.ID, ctx.Tier)
 	cmd.Env = append(os.Environ(),
 		fmt.Sprintf("VERIF_WORKER=%d/%d", shard, n),
